@@ -70,6 +70,9 @@ struct Case {
     steps: Vec<Step>,
     /// a second arrival order of the same events (clause `interleaving-independent`)
     steps2: Option<Vec<Step>>,
+    /// event ids are per-entity ids reused across timestamps (`L0`, `L1`, `L0`, ...); the harness
+    /// tells events apart by `metadata.sequence`
+    reuse_ids: bool,
 }
 
 fn step_str(s: &Step) -> String {
@@ -113,6 +116,7 @@ impl Case {
             "left": self.left.iter().map(ev_json).collect::<Vec<_>>(),
             "right": self.right.iter().map(ev_json).collect::<Vec<_>>(),
             "steps": self.steps.iter().map(step_str).collect::<Vec<_>>(),
+            "event_ids_reused_across_timestamps": self.reuse_ids,
         });
         if let Some(s2) = &self.steps2 {
             j["steps2"] = json!(s2.iter().map(step_str).collect::<Vec<_>>());
@@ -142,6 +146,7 @@ impl Case {
                 Some(v) if !v.is_null() => Some(steps(v)?),
                 _ => None,
             },
+            reuse_ids: j.get("event_ids_reused_across_timestamps").and_then(|v| v.as_bool()).unwrap_or(false),
         })
     }
     /// every L(i)/R(i) refers to an existing event and occurs at most once
@@ -174,14 +179,14 @@ fn v_of(e: &StreamEvent) -> i64 {
     }
 }
 
-fn make_event(side: char, idx: usize, e: &Ev) -> StreamEvent {
+fn make_event(side: char, idx: usize, e: &Ev, reuse_ids: bool) -> StreamEvent {
     let mut data = HashMap::new();
     if let Some(k) = e.key {
         data.insert("k".to_string(), Value::String(format!("k{}", k)));
     }
     data.insert("v".to_string(), Value::Integer(e.v));
     StreamEvent {
-        id: format!("{}{}", side, idx),
+        id: if reuse_ids { format!("{}{}", side, idx % 2) } else { format!("{}{}", side, idx) },
         event_type: "T".to_string(),
         data,
         metadata: EventMetadata {
@@ -371,8 +376,8 @@ fn run_steps(c: &Case, steps: &[Step]) -> Run {
     let mut run = Run::default();
     for (si, s) in steps.iter().enumerate() {
         let out = match s {
-            Step::L(i) => d.arrive(true, make_event('L', *i, &c.left[*i])),
-            Step::R(i) => d.arrive(false, make_event('R', *i, &c.right[*i])),
+            Step::L(i) => d.arrive(true, make_event('L', *i, &c.left[*i], c.reuse_ids)),
+            Step::R(i) => d.arrive(false, make_event('R', *i, &c.right[*i], c.reuse_ids)),
             Step::W(w) => {
                 let before = d.buffered();
                 let o = d.watermark(*w);
@@ -383,8 +388,9 @@ fn run_steps(c: &Case, steps: &[Step]) -> Run {
         };
         for je in out {
             run.emits.push(Emit {
-                l: je.left.as_ref().map(|e| (e.id.clone(), e.metadata.timestamp)),
-                r: je.right.as_ref().map(|e| (e.id.clone(), e.metadata.timestamp)),
+                // identity = side letter of the id + the sequence number the harness stamped
+                l: je.left.as_ref().map(|e| (format!("{}{}", e.id.chars().next().unwrap_or('?'), e.metadata.sequence), e.metadata.timestamp)),
+                r: je.right.as_ref().map(|e| (format!("{}{}", e.id.chars().next().unwrap_or('?'), e.metadata.sequence), e.metadata.timestamp)),
                 step: si,
             });
         }
@@ -626,6 +632,14 @@ fn run_case(c: &Case) -> (Vec<Disc>, Info) {
             vec![Disc { clause: "harness".into(), cause: "bad-case".into(), detail: "steps refer to missing or repeated events".into() }],
             Info::default(),
         );
+    }
+    if c.reuse_ids {
+        // two events of one stream that share id AND timestamp cannot be told apart by anyone:
+        // such a case is not judged
+        let clash = |evs: &[Ev]| (0..evs.len()).any(|i| (0..i).any(|j| i % 2 == j % 2 && evs[i].ts == evs[j].ts));
+        if clash(&c.left) || clash(&c.right) {
+            return (vec![], Info::default());
+        }
     }
     let run = run_steps(c, &c.steps);
     let (mut discs, info, set1) = check_run(c, &c.steps, &run);
@@ -971,6 +985,7 @@ fn random_pair(rng: &mut Rng) -> Case {
         right,
         steps: vec![],
         steps2: None,
+        reuse_ids: rng.chance(1, 5),
     }
 }
 
@@ -1000,7 +1015,7 @@ impl Check for C14 {
         "C14"
     }
     fn rule(&self) -> String {
-        "A 'pair' is (left sequence, right sequence, window w in whole seconds, join condition, driver = StreamJoinNode directly, through StreamJoinManager, or (1/8 of the random pairs) through a StreamJoinManager that also holds sibling joins sharing the left and/or right stream which are unregistered before or during the run, 5 such histories). For EVERY pair ALL merges of the two arrival orders are run (C(n+m,n), 70 for 4+4): once without watermark updates (emitted multiset must equal the reference join exactly; emitted sets are also compared directly between merges) and with watermark updates between arrivals (no duplicates, subset of the reference, a missing pair only if its first-arrived side was eligible for eviction at an update before the partner arrived). EXHAUSTIVE part: every pair of sequences of <=2+2 events over the stated small event domain x w in {0,1,2} x both conditions x all merges x {no watermark update; ONE update at every gap with every value 0..=ts_max+w+1}. RANDOM part: sequences of 0..=4 + 0..=4 events, 1..=3 keys, 1/6 of the events without key, timestamps 0..=6 (or 0..=3), w in {0,1,2,5}, condition true or l.v<=r.v; watermark variants per merge: 'track' (after every arrival update_watermark(max ts seen - lag), lag in {0,1,2}) and 1..=3 random non-decreasing updates at random gaps. A pair is non-trivial when its reference join is non-empty AND (some same-key pair is excluded by window/condition OR some event has no key); distinct by (w, condition, both sequences).".into()
+        "A 'pair' is (left sequence, right sequence, window w in whole seconds, join condition, driver = StreamJoinNode directly, through StreamJoinManager, or (1/8 of the random pairs) through a StreamJoinManager that also holds sibling joins sharing the left and/or right stream which are unregistered before or during the run, 5 such histories). For EVERY pair ALL merges of the two arrival orders are run (C(n+m,n), 70 for 4+4): once without watermark updates (emitted multiset must equal the reference join exactly; emitted sets are also compared directly between merges) and with watermark updates between arrivals (no duplicates, subset of the reference, a missing pair only if its first-arrived side was eligible for eviction at an update before the partner arrived). EXHAUSTIVE part: every pair of sequences of <=2+2 events over the stated small event domain x w in {0,1,2} x both conditions x all merges x {no watermark update; ONE update at every gap with every value 0..=ts_max+w+1}. RANDOM part: sequences of 0..=4 + 0..=4 events, 1..=3 keys, 1/6 of the events without key, in 1/5 of the pairs event ids are per-entity ids reused across timestamps, timestamps 0..=6 (or 0..=3), w in {0,1,2,5}, condition true or l.v<=r.v; watermark variants per merge: 'track' (after every arrival update_watermark(max ts seen - lag), lag in {0,1,2}) and 1..=3 random non-decreasing updates at random gaps. A pair is non-trivial when its reference join is non-empty AND (some same-key pair is excluded by window/condition OR some event has no key); distinct by (w, condition, both sequences).".into()
     }
     fn assumptions(&self) -> Vec<String> {
         vec![
@@ -1055,6 +1070,7 @@ impl Check for C14 {
                             right: right.clone(),
                             steps: vec![],
                             steps2: None,
+                            reuse_ids: false,
                         };
                         st.count("pairs_of_sequences");
                         st.count("pairs_of_sequences_exhaustive");
